@@ -173,7 +173,21 @@ func workerExplore(t *testing.T, job *Job, known *KnownFindings, out *WorkerOut,
 			break
 		}
 		fam := job.Families[i%len(job.Families)]
-		seed := job.SeedBase + uint64(job.Worker) + uint64(i)*uint64(job.Workers)
+		// The n-th run of a family by this worker uses seed base + worker + n*workers: over all workers every
+		// family walks through the integers from base upwards exactly once, so families that enumerate a fault
+		// space by seed arithmetic (seed mod points) visit every point evenly whatever the number of workers
+		// and whatever the weight of the family in the list.
+		n, per := 0, 0
+		for j, f := range job.Families {
+			if f == fam {
+				if j < i%len(job.Families) {
+					n++
+				}
+				per++
+			}
+		}
+		n += (i / len(job.Families)) * per
+		seed := job.SeedBase + uint64(job.Worker) + uint64(n)*uint64(job.Workers)
 		spec := RunSpec{Prop: job.Prop, Family: fam, Seed: seed}
 		var raceBefore int64
 		if job.RaceLog != "" {
